@@ -291,6 +291,28 @@ func runCheck(root string, args []string) int {
 			samples = append(samples, map[string]string{"obligation": r.Name, "clause": r.Src, "reading": r.Reading})
 		}
 	}
+	// reading U rests on axioms about the fixed-point operations: each is proved here, on every run, as a lemma in reading E (the exact
+	// definitions); a deliberately false lemma must fail (guards the prelude against inconsistency)
+	if _, usesDec := E.Used["A-DEC"]; usesDec {
+		for _, r := range proveUAxioms(cfg.TimeoutS, seed) {
+			nObl++
+			solverMs += r.Ms
+			name := "ulemma:" + r.Name
+			entry := map[string]interface{}{"name": name, "reading": "E", "kind": "lemma", "path_instances": 1, "status": "discharged", "solver": r.Solver, "ms": r.Ms}
+			if r.Status == "unsat" {
+				nDis++
+			} else {
+				entry["status"] = "failed"
+				report(name, "axiom of reading U is not a lemma of the exact fixed-point definitions: "+r.Status, "", "", "", true)
+			}
+			per = append(per, entry)
+		}
+		canary := Solve(Prelude(ReadE)+"(assert (not (forall ((a Dec) (b Dec)) (=> (and (>= a 0) (>= b 0)) (>= (dmul a b) a)))))\n(check-sat)\n", 5, seed, false, false)
+		vac++
+		if canary.Status == "unsat" {
+			report("vacuity:ulemma-canary", "a false lemma about dmul was proved in reading E (the prelude is inconsistent)", canary.Output, "", "", true)
+		}
+	}
 	if nObl == 0 && violations == 0 {
 		report("vacuity", "no obligation was generated for this property (vacuous check)", "", "", "", true)
 	}
@@ -335,7 +357,8 @@ func runCheck(root string, args []string) int {
 	// thorough tier: bounded comparison of the queries with an independent enumeration (C20)
 	if prop == "C20" && tier == "thorough" {
 		runBoundedSuite(root, vd, prop, seed, "queries", "bounded/zz_bounded_queries_test.go", "TestBoundedQueries",
-			[]string{"unbondings_by_delegator_exact", "unbondings_by_denom_and_delegator_exact", "unbondings_by_validator_exact", "redelegations_by_delegator_exact", "redelegations_by_denom_exact", "delegation_query_reports_record_and_balance"},
+			[]string{"unbondings_by_delegator_exact", "unbondings_by_denom_and_delegator_exact", "unbondings_by_validator_exact", "redelegations_by_delegator_exact", "redelegations_by_denom_exact", "delegation_query_reports_record_and_balance",
+				"delegations_by_delegator_exact", "paged_redelegations_are_windows_of_the_listing", "paged_delegations_are_windows_of_the_listing"},
 			"10 seeded random histories x 16 steps (same-block steps), 3 users x 3 validators x 2 assets; every third history starts with a delegator unbonding from two validators and two denoms in one block",
 			isKnown, &knownHit, &bounded, &violations, &vioLines)
 	}
